@@ -42,6 +42,7 @@ func runC01(c *core.Ctx) *core.Outcome {
 	// the comparison with the unsized twin below reasons about "the page of node X" from X's own code
 	p.FallMove = false
 	p.BrowseSwap = true
+	p.NoTplEnd = true
 	p.HugePages = t.Chance(1, 12) // page lengths around the 16-bit boundary
 	a := app.Generate(t, p)
 	if err := a.Validate(); err != nil {
